@@ -300,10 +300,21 @@ func runInBubble(c *mc.Ctx, p params) {
 			chain.Finalized += uint64(c.Choose(room+1, "finalized-advance-at-poll"))
 		}
 		dir := act.Directive{}
-		if errBudget > 0 && c.Bool("transient-rpc-error") {
-			errBudget--
-			dir.Err = errTransient
-			c.Witness("rpc_errors_injected")
+		if ek := 0; errBudget > 0 {
+			// 1 = an opaque transport error, 2 = the RPC client's own per-call time-out (wraps context.DeadlineExceeded
+			// although the syncer's context is alive)
+			ek = c.Choose(3, "transient-rpc-error")
+			if ek > 0 {
+				errBudget--
+				dir.Err = errTransient
+				if ek == 2 {
+					dir.Err = fmt.Errorf("verif: rpc call timed out: %w", context.DeadlineExceeded)
+					c.Witness("rpc_timeouts_injected")
+				}
+				c.Witness("rpc_errors_injected")
+			}
+		}
+		if dir.Err != nil {
 			if isWait {
 				lastTipAnswer = prevWaitAnswer // the poller did not see the answer
 			}
@@ -387,7 +398,7 @@ func main() {
 		Assumptions: []string{
 			"the environment changes only at the RPCs that observe the changed variable (tip at tip polls, finalized pointer at finalized polls): for a chain without reorgs an earlier change is indistinguishable (partial-order reduction, argued in DESIGN C05); reorgs are C06",
 			"a WaitForNewBlocks poll that would see nothing new for ever is treated as blocked (waiting made visible); identified by its call stack",
-			"transient errors: at most one per execution, at every position; retry limit disabled (the process-exit path of RetryHandler is not explored)",
+			"transient errors: at most one per execution, at every position, of two kinds (opaque transport error; the RPC client's per-call time-out wrapping context.DeadlineExceeded while the syncer's context is alive); retry limit disabled (the process-exit path of RetryHandler is not explored)",
 		},
 		Bounds: func(tier string) map[string]any {
 			n := 3
